@@ -23,8 +23,9 @@ RULE = ('Metamorphic: one instance with 1-2 registered services and 1-2 browsers
         'D and R are equal, except that a unicast reply to a datagram containing a QU question may appear twice in D. Non-trivial = '
         'history with >= 1 duplicated datagram that, processed once, causes a send or a callback.')
 ASSUMPTIONS = [
-    'open finding F10 (a duplicated QU query doubles its immediate multicast answer) is recognised by its exact signature, removed '
-    'from the comparison and counted; every other difference is a violation',
+    'finding F10 (a duplicated QU query repeated its multicast side effects) is repaired: nothing is set aside any more and every '
+    'difference between the two runs is a violation (while F10 was listed as open, cases in its territory were classified, counted '
+    'and skipped; that code only runs if known_findings.json lists F10 as open again)',
 ]
 BUDGET = {'quick': {'examples': 1500}, 'thorough': {'examples': 12000, 'shards': 16}}
 TYPES = c04.TYPES
@@ -37,7 +38,7 @@ GAPS = [0, 1, 20, 100, 500, 999, 1000, 1001, 3000]
 q_st = st.fixed_dictionaries({
     'kind': st.just('query'),
     'qs': st.lists(st.tuples(st.sampled_from(['type', 'inst', 'host', 'enum']), st.integers(0, 1), st.sampled_from([12, 12, 33, 16, 1, 28, 255]),
-                             st.sampled_from([False, False, False, False, False, True])).map(list), min_size=1, max_size=3),
+                             st.sampled_from([False, False, False, True])).map(list), min_size=1, max_size=3),
     'probe': st.sampled_from([False] * 7 + [True]), 'tc': st.sampled_from([False, False, False, True]),
     'port': st.sampled_from([5353, 5353, 5353, 40001]), 'client': st.integers(0, 1),
 })
@@ -182,6 +183,19 @@ def known_signature(case: Any, v: Violation):
     return None
 
 
+def _f10_open() -> bool:
+    """The exclusions below exist only while F10 is listed as an open finding; once it is recorded as fixed nothing is set aside."""
+    import json
+    import os
+
+    path = os.path.join(os.path.dirname(os.path.dirname(os.path.abspath(__file__))), 'known_findings.json')
+    try:
+        with open(path) as f:
+            return any(e.get('id') == 'F10' and e.get('status') == 'open' for e in json.load(f).get('findings', []))
+    except OSError:
+        return False
+
+
 def check(case: Dict[str, Any]) -> Dict[str, Any]:
     R = run_once(case, dup=False)
     D = run_once(case, dup=True)
@@ -196,7 +210,8 @@ def check(case: Dict[str, Any]) -> Dict[str, Any]:
     # downstream of the changed sighting times).  Such cases are counted and skipped; all others are compared in full.
     f10 = 0
     pending_tc: Dict[str, bool] = {}
-    for i, ev in zip(R['injected'], case['events']):
+    f10_open = _f10_open()
+    for i, ev in zip(R['injected'] if f10_open else [], case['events']):
         if ev['kind'] != 'query':
             continue
         src = i['src'][0]
@@ -238,10 +253,10 @@ def check(case: Dict[str, Any]) -> Dict[str, Any]:
             if ref_an and set(content[3]) <= ref_an:
                 allowed_extra += n
                 del extra[entry]
-        elif t in qu_instants and dst in (sim.MDNS4, sim.MDNS6) and cr[entry] >= 1 and n <= cr[entry] and content[1] & 0x8000:
+        elif f10_open and t in qu_instants and dst in (sim.MDNS4, sim.MDNS6) and cr[entry] >= 1 and n <= cr[entry] and content[1] & 0x8000:
             excluded_f10 += n           # open finding F10, exact signature: identical extra copy of a multicast reply at the QU instant
             del extra[entry]
-    if extra or missing:
+    if (extra or missing) and f10_open:
         # open finding F10 (broad form): a duplicated datagram with a QU question is processed twice, including its multicast side
         # effects - the immediate multicast is doubled, or answers are queued again and the aggregated reply moves to a later
         # instant. Signature: every differing entry is a multicast response within 1.3 s after a QU-containing datagram, and
